@@ -87,6 +87,15 @@ RawTexts == {
   \* names of every shape next to a parenthesis
   "X1 = 2; print (X1) (X1 + 1);", "A_1 = 3; print (A_1) (-A_1) (A_1);", "$S = 4; print ($S) ($S + 1);", "A1B = 5; put (A1B) (A1B * 2); print \"\";", "X_ = 6; Y9 = 1; print (X_) (Y9) (X_ + Y9) (Y9);",
   "T1 = tab(2, 1); print (T1.count()) (1 + 1);", "U2 = tup(1, \"a\"); print (U2@1) (2);", "print (pi) (1 + 1); print (true) (not false);",
+  \* built-ins written with an empty argument list (the parentheses are part of the call), constants written without
+  "X = int(); Y = str(); Z = tab(); W = tup(); V = num(); U = bool(); R = raw(); print isnull(X) isnull(Y) isnull(Z) isnull(W) isnull(V) isnull(U) isnull(R) typeof(X) typeof(Y);",
+  "print random() >= 0 and random() < 1; print random(5) < 5;", "X = int(); if isnull(X) then X = 3; end if; print X pi > 3 ee > 2 true null;",
+  "function NF() return integer is begin return int(); end; print isnull(NF()) isnull(str()) tab(2, int()).count();",
+  \* a parameter (or a local) that the body assigns again with another type: the header is written as it was declared
+  "function TOTAL(V) return integer is begin T = V; V = 0; forall E in T loop V = V + int(E); end loop; return V; end; print TOTAL(tab(4, 10)); print TOTAL(tab(2, 1).concat(5));",
+  "function LBL(N) return string is begin S = N * 2; N = \"n=\"; N = N + str(S); return N; end; print LBL(4) LBL(5);",
+  "function TP2(A:integer, B:string) return string is begin C = A; A = B; B = str(C); return A + B; end; print TP2(1, \"x\");",
+  "function SW(A, B) return undefined is begin T = A; A = B; B = T; A = tab(1, A); return A.count() + B; end; print SW(\"s\", 2);",
   "print 5 (-1);", "print (1) (2) (3);", "X = 2; print X \"\" (X + 1);", "print \"a\" (-1) \"b\" -1;", "print 1 - 1 (- 1);", "X = 3; print (X) (-X) -X;", "print not true (not false);", "X = null; print isnull(X) typeof(X);", "X = b64enc(raw(\"hello\")); print X b64dec(X).count();" }
 
 VARIABLE p
